@@ -98,3 +98,26 @@ def flat_trace(items, into=None, depth=0, ctx=()):
         else:
             into.append((it, ctx))
     return into
+
+
+def validated_sets(I):
+    """(guarded, plain): proof points absorbed with / without a directly preceding identity-rejecting guard on the same point.
+    A point that is guarded on some path and plain on another appears in both sets."""
+    from .alg import Cond, Enum, Pt
+    from .sched import atom_name
+
+    flat = flat_trace(I.trace.items)
+    guarded, plain = set(), set()
+    for idx, (it, ctx) in enumerate(flat):
+        if it[0] != "op" or it[1]["kind"] != "append_message":
+            continue
+        p = it[1]["payload"]
+        if not (hasattr(p, "parts") and len(p.parts) == 1 and p.parts[0][0] == "uncompressed" and isinstance(p.parts[0][1], Pt)):
+            continue
+        nm = atom_name(p.parts[0][1])
+        if nm is None or not nm.startswith("pf."):
+            continue
+        prev = flat[idx - 1][0] if idx > 0 else None
+        is_g = prev is not None and prev[0] == "guard" and isinstance(prev[1], Cond) and prev[1].op == "iszero" and not prev[1].neg and isinstance(getattr(prev[1], "subject", None), Pt) and atom_name(prev[1].subject) == nm and isinstance(prev[2], Enum) and prev[2].variant == "Err" and "VerificationError" in repr(prev[2])
+        (guarded if is_g else plain).add(nm)
+    return guarded, plain
